@@ -35,6 +35,13 @@ pub fn decode_value(t: Type, code: u64) -> Val {
     }
 }
 
+pub fn decode_value_zero(t: Type) -> Val {
+    match t {
+        Type::BV(w) => Val::Bv(Bv::zero(w)),
+        Type::Array(a) => Val::Arr(Arr::constant(a.index_width, &Bv::zero(a.data_width))),
+    }
+}
+
 pub fn encode_value(v: &Val) -> u64 {
     match v {
         Val::Bv(b) => b.v.to_u64().expect("small value"),
